@@ -23,7 +23,7 @@ package main
 // counted: does it contain the library's error text), standard error, the
 // dynamic type of `args` (scripts never ask for it), error messages that span
 // several lines (excluded: "one diagnostic line" cannot hold then), interactive
-// mode, `-e ""` (indistinguishable from an absent flag).
+// mode.
 
 import (
 	"bytes"
@@ -1320,10 +1320,7 @@ func (x *c18Ctx) runScript(sc *c18Script, args []string, fileName, eForm string)
 
 	// -e mode: all positional arguments are script arguments. Words that look like
 	// flags cannot be positional there, so they are left out.
-	if sc.Src == "" {
-		c.Excluded("empty -e (indistinguishable from absent)")
-		return
-	}
+	// an empty -e source is a source like any other: it is executed (and prints nothing)
 	if strings.Contains(sc.Src, "\x00") || len(sc.Src) > 100000 {
 		c.Excluded("source cannot be an argv word")
 		return
